@@ -11,7 +11,7 @@
 From Coq Require Import List Arith ZArith Bool Reals.
 From Coq Require Import String.
 From Flocq Require Import Core IEEE754.Binary IEEE754.Bits.
-From MechV Require Import Base.Sexp Base.Obs Model.Elemwise Proofs.ElemwiseP.
+From MechV Require Import Base.Sexp Base.Obs Model.Elemwise Proofs.ElemwiseP Gen.DispatchArms Proofs.DispatchArmsP.
 Import ListNotations.
 
 (* ---- broadcasting: every shape, every element list ---------------------------------- *)
@@ -73,6 +73,34 @@ Theorem C01_dispatch_spec : forall a b : shape, pos_shape a -> pos_shape b ->
   end.
 Proof. exact dispatch_spec. Qed.
 Print Assumptions C01_dispatch_spec.
+
+(* 6b. The model's dispatch is its form-level table plus the numeric guards of the two wildcard arms ... *)
+Theorem C01_dispatch_by_forms : forall a b : shape,
+  dispatch a b = match fdispatch (form_of a) (form_of b) with
+                 | Some (arm, g) => if guard_ok g a b then Some arm else None
+                 | None => None
+                 end.
+Proof. exact dispatch_by_forms. Qed.
+Print Assumptions C01_dispatch_by_forms.
+
+(* 6c. ... and that table is what the match arms of impl_binop_match_arms! / impl_fxns! say in the CURRENT source
+       (Gen/DispatchArms.v is regenerated from /repo/src/core/src/stdlib.rs on every run): for every pair of
+       storage forms of the buildable configuration the first compiled-in matching arm builds the struct whose
+       kernel macro is the model's arm class, under the model's shape guard (or no arm matches, in both). *)
+Theorem C01_dispatch_table_matches_source : forall fa fb : form,
+  src_dispatch_kernel fa fb = option_map (fun ag => (arm_kernel (fst ag), guard_text (snd ag))) (fdispatch fa fb).
+Proof. exact dispatch_table_matches_source. Qed.
+Print Assumptions C01_dispatch_table_matches_source.
+
+(* 6d. Every kernel macro of every operator file was found, and the kernels of the non-commutative operators
+       (- / % ^ < <= > >=, string concatenation) take the lhs element first (regenerated table). *)
+Theorem C01_kernels_keep_operand_order :
+  forallb (fun o => forallb (fun k =>
+     existsb (fun e => let '(o', k', ord) := e in
+                String.eqb o o' && String.eqb k k' && (commutative_op o || String.eqb ord "LR"%string)) kernel_order)
+     kernel_names) op_names = true.
+Proof. exact kernels_keep_operand_order. Qed.
+Print Assumptions C01_kernels_keep_operand_order.
 
 (* 7. C01 holds for the implementation model outside the known-finding class: arms + kernels compute
       exactly the specification, for every scalar function, kernel flavour, shape and element list. *)
